@@ -707,7 +707,15 @@ func connectAuthorityKeptRule(r *Report) {
 	}
 	r.Touch(hcr)
 	var bad ssa.Instruction
-	for _, f := range append([]*ssa.Function{hcr}, hcr.AnonFuncs...) {
+	fs := append([]*ssa.Function{hcr}, hcr.AnonFuncs...)
+	// ... nor does the exchange function invent one for a request that names none (a nested
+	// CONNECT without authority must be refused, not answered under the outer session's name)
+	if h := r.W.Fn("", "Proxy.handle"); h != nil && h.Blocks != nil {
+		r.Touch(h)
+		fs = append(fs, h)
+		fs = append(fs, h.AnonFuncs...)
+	}
+	for _, f := range fs {
 		for _, in := range instrs(f) {
 			if st, isSt := in.(*ssa.Store); isSt {
 				if fa, isFa := st.Addr.(*ssa.FieldAddr); isFa && fieldObj(fa).Name() == "Host" && namedOf(fa.X.Type()) == "Request" {
@@ -720,5 +728,5 @@ func connectAuthorityKeptRule(r *Report) {
 	if bad != nil {
 		pos = bad.Pos()
 	}
-	r.Decide("flow", "(*M.Proxy).handleConnectRequest leaves the CONNECT authority as the client sent it", bad == nil, "no store to Request.Host", "the CONNECT handler overwrites req.Host (with the URL host a modifier rewrote): without SNI the certificate is forged for the rewritten upstream, not for the authority the client named and will verify", pos)
+	r.Decide("flow", "(*M.Proxy).handle / handleConnectRequest leave the request's authority as the client sent it", bad == nil, "no store to Request.Host", "the proxy core overwrites or fills in req.Host (with the URL host a modifier rewrote, with the outer session's server name): without SNI a certificate is forged for a name the client did not ask for, where the handshake must be refused or made for the authority the client named", pos)
 }
